@@ -1,6 +1,7 @@
 import Std.Data.HashSet
 import Driver.Live
 import CoreBGP.Model.Peer
+import CoreBGP.Model.Reconnect
 /-!
 # L2 trace inclusion (DESIGN appendix B): the per-peer projection of a live trace, with bytes replaced
 by message classes, must be a trace of the peer-manager / FSM transition system `Model.next`. The set
@@ -159,7 +160,7 @@ def labelsOf (evs : List Ev) (peer : String) (cfg : SessCfg) (conns : List ConnI
           doneSeen := true; out := out ++ [(e.seq, [.stopped])]
       | _ => pure ()
     else if e.peer == "-" then
-      if e.ev == "api.call" && e.arg 0 == "Close" && !stopSeen then
+      if e.ev == "api.call" && (e.arg 0 == "Close" || e.arg 0 == "ListenerClose") && !stopSeen then
         stopSeen := true; out := out ++ [(e.seq, [.apiStop])]
       -- `stopped` of this peer happens somewhere before Close returns: its position is not observable
   return out
@@ -177,5 +178,61 @@ def includeL2 (dominant passive : Bool) (labels : List (Nat × List Label)) : Op
     ss := ss''
     maxSet := max maxSet ss.length
   return (none, maxSet)
+
+
+/-! ### timed inclusion of the outbound FSM's Idle / Connect / Active phase in `Model.rstep`
+
+The manager logs every approved transition of the out-FSM with a timestamp; replaying them through the
+timed model (time advancing by the observed differences) must never hit a transition that is not enabled
+— in particular an exit from Idle before the idle-hold deadline, or a retry from Active before the
+connect-retry deadline. The log lags the action by scheduling noise, so a deadline may be missed by a
+small tolerance. The connect-retry expiry inside `connect()` is not logged (no transition): it is taken
+whenever it is due. -/
+def reconnectInclusion (evs : List Ev) (peer : String) : List String := Id.run do
+  match evs.find? fun e => e.peer == peer && e.ev == "cfg" with
+  | none => return []
+  | some c =>
+    let ih := (c.arg 4).toNat?.getD 0 * 1000000
+    let cr := (c.arg 5).toNat?.getD 0 * 1000000
+    let eps := min 20000000 (ih / 4)
+    let mut fails : List String := []
+    let mut st : Option RSess := none
+    for e in evs do
+      if e.peer == peer && e.ev == "log.t" && e.arg 0 == "out" then
+        let frm := e.arg 1
+        let to := e.arg 2
+        if frm == "disabled" && to == "idle" then
+          st := some (rInit ih cr e.t)                      -- a new FSM instance
+        else if to == "disabled" then st := none
+        else
+          match st with
+          | none => pure ()
+          | some s =>
+            -- advance time to the observation (plus the tolerance), taking silent connect-retry redials that are due
+            let s1 : RSess := { s with now := max s.now (e.t + eps) }
+            let s2 := if s1.st == .connect && due s1.crDl s1.now then (rstep s1 .crFireRedial).getD s1 else s1
+            let ev : Option REv :=
+              if frm == "idle" && to == "connect" then some .idleFire
+              else if frm == "connect" && to == "idle" then some .dialFailed
+              else if frm == "connect" && to == "openSent" then some .dialOK
+              else if frm == "active" && to == "connect" then some .crFireActive
+              else if frm == "openSent" && to == "active" then some .lostToActive
+              else if to == "idle" then some .lostToIdle
+              else none
+            match ev with
+            | none => pure ()
+            | some ev =>
+              match rstep s2 ev with
+              | some _ =>
+                -- enabled within the tolerance: take the step at the observed time (so that the deadlines it arms
+                -- are not inflated by the tolerance)
+                let s3 : RSess := { s2 with now := e.t,
+                                            idleDl := if ev == .idleFire then s2.idleDl.map (min · e.t) else s2.idleDl,
+                                            crDl := if ev == .crFireActive || ev == .crFireRedial then s2.crDl.map (min · e.t) else s2.crDl }
+                st := (rstep s3 ev)
+              | none =>
+                fails := fails ++ [s!"C11 timed model: out-FSM transition {frm} => {to} at {e.t / 1000000} ms is not enabled (idle-hold deadline {s2.idleDl.getD 0 / 1000000} ms, connect-retry deadline {s2.crDl.getD 0 / 1000000} ms)"]
+                st := none
+    return fails
 
 end Driver
